@@ -47,7 +47,7 @@ hooks = subprocess.run(["git", "-C", "/repo", "log", "--format=%h %s"], stdout=s
 hook_commits = [l.split()[0] for l in hooks if "verif hook" in l]
 m = {
  "version": 1,
- "setup_cmd": "cd /verif/harness && CARGO_NET_OFFLINE=true cargo build --release --offline",
+ "setup_cmd": "cd /verif/harness && CARGO_NET_OFFLINE=true cargo build --release --offline --bin t2n-harness",
  "hooks": {"guard": "text2num_verif",
            "enable": "--cfg text2num_verif via /verif/harness/.cargo/config.toml (the harness depends on /repo by path and is rebuilt by every check)",
            "baseline_off_cmd": "cd /repo && cargo test --workspace --no-fail-fast --offline",
